@@ -28,7 +28,7 @@ def base_sets(year):
 
 
 def compare(out, base, got, keys_base, keys_got, case, prefix=""):
-    diffs = sim.compare_results(base, got, keys_base, keys_got, ulps=4, check_dtype=True)
+    diffs = sim.compare_results(base, got, keys_base, keys_got, ulps=4, check_dtype=True, row_scale=True)
     for col, kind, detail in diffs:
         out.violation(f"{prefix}{kind}:{col}", {**case, "column": col, "kind": kind}, f"{col}: {kind} differs under {case.get('what', 'permutation')} {case.get('row_order')}: {detail}")
     return not diffs
@@ -278,7 +278,7 @@ def replay(case):
     else:
         d2 = df.iloc[case["row_order"]].reset_index(drop=True)
     got = sim.sim_all(d2, date_iso)
-    diffs = sim.compare_results(base, got, df["p_id"].tolist(), d2["p_id"].tolist(), ulps=4)
+    diffs = sim.compare_results(base, got, df["p_id"].tolist(), d2["p_id"].tolist(), ulps=4, row_scale=True)
     return not diffs, f"{diffs[:5]}"
 
 
@@ -343,7 +343,7 @@ def run(tier):
             rep.merge(part)
     rep.bound = {"dates": dates, "populations": [l for l, _ in base_sets(2023)], "max_rows_all_permutations": 6,
                  "deviation_bound_k": 1, "long_tables": {"rows": sorted({n for _, n in big}), "orders": BIG_ORDERS}, "deviation_dates": dev_dates, "float_tolerance_ulps": 4}
-    rep.assumptions = ["floats are compared to 4 ulp because a float group sum over >= 3 members is legitimately re-associated when rows move; "
+    rep.assumptions = ["floats are compared to 4 ulp, taken at the largest magnitude among the person's values (a re-associated group sum over >= 3 members differs by an ulp of the summands, and a later subtraction keeps that absolute error); "
                        "integers, booleans, dates, dtypes and id partitions are compared exactly",
                        "direct all-order exploration of the grouping functions is part of C12"]
     return rep.finish(
